@@ -41,22 +41,25 @@ def vec_key(v: dict) -> str:
 
 
 def build_batches(chk: Check, *, codemods=None, seeds_per_codemod: int = 2, vectors_per_seed: int = 8, vectors=None,
-                  step_extra: dict | None = None, second_run: bool = False, origin: str = "pixee") -> list[dict]:
+                  step_extra: dict | None = None, second_run: bool = False, origin: str = "pixee", with_extra: bool = False,
+                  extra_vectors: int = 3) -> list[dict]:
     """One scenario per find-and-fix codemod: a project with one file per (seed, variation)."""
     vectors = vectors or enumerate_vectors(chk)
-    by = seeds.by_codemod()
+    by = seeds.by_codemod(with_extra=with_extra)
     scenarios = []
     discarded = 0
     for cid in sorted(by):
         if not cid.startswith(origin + ":") or (codemods is not None and cid not in codemods):
             continue
-        cands = sorted(by[cid], key=lambda s: (len(s.input), s.key))
+        cands = sorted((s for s in by[cid] if not s.test.startswith("extra::")), key=lambda s: (len(s.input), s.key))
         chosen = cands[:seeds_per_codemod]
+        probes = [s for s in by[cid] if s.test.startswith("extra::")]
+        chosen += probes
         files, metas = {}, {}
         n = 0
         for s in chosen:
             base_ok = pyoracle.compiles(s.input)
-            for v in covering(chk, vectors, vectors_per_seed):
+            for v in covering(chk, vectors, extra_vectors if s.test.startswith("extra::") else vectors_per_seed):
                 text = variations.apply(s.input, v)
                 if base_ok and not pyoracle.compiles(text):
                     discarded += 1
